@@ -703,7 +703,42 @@ func c05(p *P) {
 	}
 	if ev := p.fn("C05.R9", "gpbft.cachedCommitteeProvider.EvictCommitteesBefore"); ev != nil {
 		dels := callSinksRe(ev, "committee evicted", `^delete\(\$0\.committees`)
-		if len(dels) == 0 {
+		// idiom: maps.DeleteFunc(c.committees, func(k, _) bool { return k < instance })
+		viaStd := false
+		for _, cs := range callSites(ev, false) {
+			if !strings.HasPrefix(cs.Callee(), "maps.DeleteFunc") || len(cs.Common.Args) != 2 || cs.Arg(0) != "$0.committees" {
+				continue
+			}
+			mc, ok := cs.Common.Args[1].(*ssa.MakeClosure)
+			if !ok {
+				continue
+			}
+			pred, ok := mc.Fn.(*ssa.Function)
+			if !ok || len(pred.Params) < 1 {
+				continue
+			}
+			okPred := true
+			for _, rel := range []Rel{RelEQ, RelGT} {
+				inj := cmpRel("", `^\$0$`, `^\$\^1$`, rel).Match(pred)
+				if len(inj) == 0 {
+					okPred = false
+					break
+				}
+				sp := RunSCCP(pred, inj)
+				for _, ret := range returnsOf(pred) {
+					if sp.Reachable(ret) && len(ret.Results) == 1 {
+						if av := sp.get(ret.Results[0]); !(av.K == Cst && av.C.String() == "false") {
+							okPred = false
+						}
+					}
+				}
+			}
+			viaStd = true
+			r.Check(okPred, "C05.R9", "EvictCommitteesBefore: only instances below the bound are evicted", p.c.InstrPos(cs.Instr), "maps.DeleteFunc predicate is key < bound", "the eviction predicate can hold for an instance at or above the bound")
+		}
+		if viaStd {
+			// decided above
+		} else if len(dels) == 0 {
 			r.Undecided("C05.R9", "EvictCommitteesBefore: delete", "no delete found")
 		} else {
 			p.guarded("C05.R9", ev, dels,
@@ -733,10 +768,7 @@ func c05(p *P) {
 	}
 	// ---------------- R12: (BLS backend) a public key is remembered only after it decoded to a non-null point
 	if pk := p.fn("C05.R12", "blssig.Verifier.pubkeyToPoint"); pk != nil {
-		var ups []Sink
-		for _, mu := range mapUpdates(pk, ".pointCache") {
-			ups = append(ups, Sink{mu, "point remembered"})
-		}
+		ups := mapWriteSinks(pk, ".pointCache", "point remembered")
 		if len(ups) == 0 {
 			r.Undecided("C05.R12", "blssig.Verifier.pubkeyToPoint: cache write", "no write to the point cache found")
 		} else {
